@@ -188,7 +188,7 @@ def insTriple (x : (Nat × Nat × Nat) × String) : List ((Nat × Nat × Nat) ×
 
 def joinOr (l : List String) : String := if l.isEmpty then "-" else "|".intercalate l
 
-def specLine (id : String) (c : Case) (bin : String) : String :=
+def specLine (id : String) (c : Case) (bin : String) (rawDigest : String := "-") : String :=
   let ms := Spec.Cells.measOf c.res
   let keys := Spec.Cells.cellKeys ms
   let ident (k : Key × Key × Key) : Nat × Nat × Nat := (idxOf c.T k.1, idxOf c.R k.2.1, idxOf c.C k.2.2)
@@ -217,7 +217,7 @@ def specLine (id : String) (c : Case) (bin : String) : String :=
   -- "the unit's statistical assumption": from the unit metadata of ALL input files
   let asParts := tabs.map fun t =>
     (((idxOf c.T t, 0, 0) : Nat × Nat × Nat), s!"{idxOf c.T t}={aName (specAssume (cfg.unitOf t))}")
-  s!"spec {id} cells={joinOr (sorted cells)} resw={joinOr (sorted resw)} gmw={joinOr (sorted gmParts)} assume={joinOr (sorted asParts)} stats=ok bin={bin}"
+  s!"spec {id} cells={joinOr (sorted cells)} resw={joinOr (sorted resw)} gmw={joinOr (sorted gmParts)} assume={joinOr (sorted asParts)} stats=ok colpos=ok rawcells={rawDigest} bin={bin}"
 
 
 def hexStr (s : String) : String := (Bytes.ofString s).toHex
@@ -280,6 +280,31 @@ def rawLines (id : String) (l : Line) (c : Case) : List String :=
   let r := rawPass l c
   let same := decide (toTables r.c.cfg (build r.c.res) = toTables c.cfg (build c.res))
   [s!"obs {id} raw {r.line}", s!"obs {id} rawtab same={if same then 1 else 0}"]
+
+
+def insStr (x : String) : List String → List String
+  | [] => [x]
+  | y :: ys => if x ≤ y then x :: y :: ys else y :: insStr x ys
+
+def fnv1a (items : List String) : UInt64 :=
+  items.foldl (fun h it =>
+    let h := it.toUTF8.toList.foldl (fun h b => (h ^^^ b.toUInt64) * 1099511628211) h
+    (h ^^^ 10) * 1099511628211) 14695981039346656037
+
+def hex16 (x : UInt64) : String := F64.toHex x
+
+/-- the cells the SPECIFICATION demands, keyed by key values: groupBy over the keys the C08
+model projects from the raw results -/
+def rawCellsDigest (l : Line) (c : Case) : String :=
+  if l.getD "rawok" "0" != "1" then "-" else
+  let r := (rawPass l c).c
+  let ms := Spec.Cells.measOf r.res
+  let keys := Spec.Cells.cellKeys ms
+  let items := keys.map fun k =>
+    let g := Spec.Cells.group ms k.1 k.2.1 k.2.2
+    s!"{encTuple k.1}|{encTuple k.2.1}|{encTuple k.2.2}={".".intercalate ((canon (g.map (·.value))).map F64.toHex)}"
+  let sorted := items.foldr insStr []
+  s!"{sorted.length}:{hex16 (fnv1a sorted)}"
 
 end Raw
 
